@@ -89,7 +89,7 @@ def c11_cases(tier, seed):
     ps = run_harness(['shuffles', '--seed', seed, '--n', 40 if tier == 'quick' else 800, '--seeds', os.path.join(ROOT, 'seeds')])
     shuf = [(l.split('|')[0], l.split('|')[1].split()) for l in ps.stdout.split('\n') if '|' in l]
     cases = []
-    n = 130 if tier == 'quick' else 4000
+    n = 130 if tier == 'quick' else 1500
     while len(cases) < n:
         r = rng.random()
         if r < 0.15 and shuf:
@@ -138,7 +138,7 @@ def c11_cases(tier, seed):
 def run_c11(tier, seed, verdict, cov):
     d = fresh_dir('c11-%d' % os.getpid())
     cases = c11_cases(tier, seed)
-    cap = 60000 if tier == 'quick' else 200000
+    cap = 60000 if tier == 'quick' else 120000
     parts = max(1, min(NCPU - 2, 12))
     chunks = [cases[i::parts] for i in range(parts)]
 
@@ -156,7 +156,9 @@ def run_c11(tier, seed, verdict, cov):
         for f in sorted(os.listdir(od)):
             trees.append(os.path.join(od, f))
     trees.sort(key=lambda p: -os.path.getsize(p))
-    nb = max(1, min(len(trees), parts * 2))
+    total_bytes = sum(os.path.getsize(p) for p in trees)
+    # at most ~100 MB of tree lines per TLC process (about a million nodes)
+    nb = max(1, min(len(trees), max(parts * 2, total_bytes // 100_000_000 + 1)))
     batches = [[] for _ in range(nb)]
     sizes = [0] * nb
     for t in trees:
@@ -172,7 +174,7 @@ def run_c11(tier, seed, verdict, cov):
             for t in b:
                 fo.write(open(t).read())
         files.append((p, b))
-    with cf.ThreadPoolExecutor(max_workers=parts) as ex:
+    with cf.ThreadPoolExecutor(max_workers=parts if tier == 'quick' else 6) as ex:
         results = list(ex.map(lambda fb: validate_search(fb[0], 'C11', big=True), files))
 
     def header(path):
@@ -370,6 +372,8 @@ def run_c13(tier, seed, verdict, cov):
     for c in cases:
         groups.setdefault(c['group'], []).append(c)
     parts = max(1, min(NCPU - 2, len(groups)))
+    if tier == 'thorough':
+        parts = max(1, min(len(groups), 4 * (NCPU - 2)))     # smaller event files (each is one TLC run)
     buckets = [[] for _ in range(parts)]
     load = [0] * parts
     for g, cs in sorted(groups.items(), key=lambda kv: -len(kv[1])):
@@ -383,9 +387,9 @@ def run_c13(tier, seed, verdict, cov):
         out = os.path.join(d, 'c13-%02d.ndjson' % i)
         run_harness(['search-trace', '--cases', cp, '--out', out], timeout=6000)
         return out
-    with cf.ThreadPoolExecutor(max_workers=parts) as ex:
+    with cf.ThreadPoolExecutor(max_workers=min(parts, NCPU - 2)) as ex:
         files = list(ex.map(rec, range(parts)))
-    with cf.ThreadPoolExecutor(max_workers=parts) as ex:
+    with cf.ThreadPoolExecutor(max_workers=min(parts, NCPU - 2 if tier == 'quick' else 8)) as ex:
         results = list(ex.map(lambda f: validate_search(f, 'C13', big=True), files))
     writes = runs = interrupted = 0
     samples = []
